@@ -362,7 +362,7 @@ Fixpoint no_route_after_close (hdr : bool) (l : list lev) (closed : bool) : bool
   | [] => true
   | LClose :: l' => no_route_after_close hdr l' true
   | LHeaders _ :: l' => negb (hdr && closed) && no_route_after_close hdr l' closed
-  | LNote _ :: l' => negb closed && no_route_after_close hdr l' closed
+  | LNote _ :: l' => negb (negb hdr && closed) && no_route_after_close hdr l' closed   (* notes are written by routed code: server wiring only *)
   | _ :: l' => no_route_after_close hdr l' closed
   end.
 
